@@ -48,13 +48,14 @@ Proof.
   destruct o; cbn [prepend finish]; rewrite H; destruct (exec_all st d); reflexivity.
 Qed.
 
-Theorem process_x_factor : forall args ls cur p st,
+(* (outside -I: there every line is run as soon as it is read - replace_eager in XArgsTop.v) *)
+Theorem process_x_factor : c_replace c = false -> forall args ls cur p st,
   process_x c tmpl ls cur p args false st = finish (processP ls cur p args []) st.
 Proof.
-  induction args as [|a rest IH]; intros ls cur p st.
+  intros Hnr. induction args as [|a rest IH]; intros ls cur p st.
   - cbn [process_x process]. destruct (negb (c_r c) || p); cbn [app finish exec_all]; [|reflexivity].
     destruct (exec c st cur); reflexivity.
-  - cbn [process_x process]. unfold accf at 1.
+  - cbn [process_x process]. rewrite Hnr. unfold accf at 1.
     destruct (try_arg ls a) as [ls'|o] eqn:E; [apply IH|].
     destruct (fatalf c ls a); [reflexivity|].
     unfold accf at 1.
